@@ -709,6 +709,12 @@ func runC07(c *Ctx) {
 			bad = "the digest is not taken over the freshly drawn bytes"
 			return
 		}
+		// the tweak byte is read from THIS attempt's digest: the hash (and its store into the digest) comes
+		// before the load, in the same trip round the loop
+		if !instrDominates(hc, ld) || (des[0].In != nil && !instrDominates(des[0].In, ld)) {
+			bad = "the tweak byte is read at " + p.InstrPos(ld) + " before this attempt's digest is computed: the first attempt gets 0 and every later one the previous attempt's byte (pad bits and private key are no longer independent draws)"
+			return
+		}
 		// copy(priv, digest[:]) where priv is the drawn slice over private.Bytes()
 		cp := false
 		for _, cc := range p.CallsIn(newKp, "builtin:copy") {
